@@ -48,7 +48,8 @@ def CodePolicy (accept : Nat → Bool) : Prop :=
   ∀ c, (mustRejectCode c = true → accept c = false) ∧ (mustAcceptCode c = true → accept c = true)
 
 /-- Relaxations of the receiver rules.  `Quirks.rfc` (none) is the specification; `Quirks.go` names
-exactly the three places where the Go reader is known to deviate (see `Props/C29.lean`). -/
+exactly the places where the Go reader is known to deviate (see `Props/C29.lean`): after the fixes
+a4ffe486 and 13f4dfc8 in /repo only `msbAsTooBig` is left. -/
 structure Quirks where
   /-- RSV1 is tolerated on control frames and continuation frames once permessage-deflate is
   negotiated (RFC 7692 §6 says fail) -/
@@ -61,7 +62,7 @@ structure Quirks where
 deriving Repr, DecidableEq
 
 def Quirks.rfc : Quirks := ⟨false, false, false⟩
-def Quirks.go : Quirks := ⟨true, true, true⟩
+def Quirks.go : Quirks := ⟨false, false, true⟩
 
 /-- Violations visible in the first two header bytes. -/
 def hdrViolation (q : Quirks) (cfg : Cfg) (inMsg : Bool) (h : Hdr) : Bool :=
